@@ -119,7 +119,13 @@ def check_space(case):
         n_before = len(ds.points)
         snap = (ds.points.copy(), [list(map(list, c)) for c in ds.cells], list(ds.point_depths),
                 [(r.lower.copy(), r.upper.copy()) for r in ds.confidence_regions])
-        children = ds.refine_design(parent)
+        # refine_design is documented as (and is) a thin wrapper of the public generate_child_designs: both entry points
+        # must create and report the same children
+        if len(op) > 2 and op[2]:
+            children = ds.generate_child_designs(parent)
+            labels.append("via-generate_child_designs")
+        else:
+            children = ds.refine_design(parent)
         r = check_refine_children(ds, parent, children, n_before, d, labels)
         if r is not None:
             return r
@@ -138,7 +144,7 @@ def check_space(case):
         if interiors_overlap(ds.cells[a], ds.cells[b]):
             return Result.violation("C18:leaves-overlap", f"{ds.cells[a]} {ds.cells[b]}", labels)
     labels.append(f"refinements={'0' if n_ref == 0 else '1' if n_ref == 1 else '>=2'}")
-    return Result.ok(labels, n_ref >= 2 and deep)
+    return Result.ok(sorted(set(labels)), n_ref >= 2 and deep)
 
 
 def check_run(spec):
@@ -278,7 +284,7 @@ def st_space(draw):
     for _ in range(draw(st.integers(5, 12)) if chain else draw(st.integers(1, 10 if d < 3 else 5))):
         k = draw(st.sampled_from(["refine_last"] * 6 + ["update", "should"] if chain else ["refine", "refine", "refine", "update", "should"]))
         if k in ("refine", "refine_last"):
-            ops.append([k, draw(st.integers(0, 60))])
+            ops.append([k, draw(st.integers(0, 60)), draw(st.sampled_from([False, False, True]))])
         elif k == "update":
             ops.append(["update", draw(st.lists(st.integers(0, 60), min_size=1, max_size=4)), draw(st.sampled_from([0.5, 1.0, 3.0]))])
         else:
